@@ -25,6 +25,7 @@ import (
 	"time"
 
 	rapp "github.com/Dash-Industry-Forum/livesim2/cmd/cmaf-ingest-receiver/app"
+	"github.com/Dash-Industry-Forum/livesim2/cmd/livesim2/app"
 	"github.com/go-chi/chi/v5/middleware"
 	"verifharness/lib"
 )
@@ -35,6 +36,8 @@ type c08req struct {
 	URL    string            `json:"url"`
 	Body   []byte            `json:"body,omitempty"`
 	Hdr    map[string]string `json:"hdr,omitempty"`
+	// Cfg names a server built with an unusual but accepted ServerConfig (kind "cfg")
+	Cfg string `json:"cfg,omitempty"`
 	// WatchdogMS overrides the 5 s watchdog (used by the parent to confirm a hang on a loaded machine)
 	WatchdogMS int `json:"watchdog_ms,omitempty"`
 }
@@ -200,6 +203,56 @@ func workerMain() {
 		w.WriteHeader(http.StatusOK)
 	}))
 	defer sink.Close()
+	// servers with unusual but accepted configurations, built when first asked for
+	cfgMods := map[string]func(*app.ServerConfig){
+		"maxreq-neg":       func(c *app.ServerConfig) { c.MaxRequests = -1 },
+		"maxreq-neg-big":   func(c *app.ServerConfig) { c.MaxRequests = -1 << 62; c.ReqLimitInt = -1 },
+		"maxreq-1":         func(c *app.ServerConfig) { c.MaxRequests = 1; c.ReqLimitInt = 10 },
+		"maxreq-1-int0":    func(c *app.ServerConfig) { c.MaxRequests = 1; c.ReqLimitInt = 0 },
+		"maxreq-2-intneg":  func(c *app.ServerConfig) { c.MaxRequests = 2; c.ReqLimitInt = -5 },
+		"maxreq-whitelist": func(c *app.ServerConfig) { c.MaxRequests = 1; c.ReqLimitInt = 10; c.WhiteListBlocks = "192.0.2.0/24" },
+		"maxreq-white-bad": func(c *app.ServerConfig) { c.MaxRequests = 1; c.ReqLimitInt = 10; c.WhiteListBlocks = "x," },
+		"maxreq-log": func(c *app.ServerConfig) {
+			c.MaxRequests = 1
+			c.ReqLimitInt = 10
+			c.ReqLimitLog = tmp + "/reqlimit.log"
+		},
+		"maxreq-log-bad": func(c *app.ServerConfig) {
+			c.MaxRequests = 1
+			c.ReqLimitInt = 10
+			c.ReqLimitLog = tmp + "/no/such/dir/x.log"
+		},
+		"timeout-neg":       func(c *app.ServerConfig) { c.TimeoutS = -1 },
+		"timeout-1":         func(c *app.ServerConfig) { c.TimeoutS = 1 },
+		"livewindow-0":      func(c *app.ServerConfig) { c.LiveWindowS = 0 },
+		"livewindow-neg":    func(c *app.ServerConfig) { c.LiveWindowS = -300 },
+		"host-set":          func(c *app.ServerConfig) { c.Host = "https://example.org" },
+		"playurl-empty":     func(c *app.ServerConfig) { c.PlayURL = "" },
+		"playurl-bad":       func(c *app.ServerConfig) { c.PlayURL = "%zz%s%s" },
+		"repdata-write":     func(c *app.ServerConfig) { c.RepDataRoot = tmp + "/repdata"; c.WriteRepData = true },
+		"repdata-missing":   func(c *app.ServerConfig) { c.RepDataRoot = tmp + "/no/such/repdata" },
+		"port-0-loglevel-x": func(c *app.ServerConfig) { c.Port = 0; c.LogFormat = "x" },
+	}
+	cfgServers := map[string]http.Handler{}
+	cfgServer := func(name string) (http.Handler, string) {
+		if h, ok := cfgServers[name]; ok {
+			if h == nil {
+				return nil, "server not available"
+			}
+			return h, ""
+		}
+		mod, ok := cfgMods[name]
+		if !ok {
+			return nil, "unknown configuration " + name
+		}
+		l, err := lib.NewLivesim(lib.TestVodRoot, mod)
+		if err != nil { // a configuration that SetupServer refuses is a deliberate answer too
+			cfgServers[name] = nil
+			return nil, "SetupServer: " + err.Error()
+		}
+		cfgServers[name] = l.Srv.Router
+		return l.Srv.Router, ""
+	}
 	var memHit atomic.Bool
 	go func() {
 		var ms runtime.MemStats
@@ -233,7 +286,20 @@ func workerMain() {
 		done := make(chan c08obs, 1)
 		t0 := time.Now()
 		go func() {
+			defer func() { // a panic while a configured server is being built
+				if r := recover(); r != nil {
+					v := fmt.Sprint(r)
+					done <- c08obs{Class: "panic", Raw: v, Site: siteFromStack(string(debug.Stack())) + ": " + normKind(v)}
+				}
+			}()
 			switch rq.Kind {
+			case "cfg":
+				h, msg := cfgServer(rq.Cfg)
+				if h == nil {
+					done <- c08obs{Class: "skip", Body: msg}
+					return
+				}
+				done <- serveOne(h, rq, true)
 			case "live", "liveseq":
 				done <- serveOne(ls.Srv.LiveRouter, rq, false)
 			case "recv":
